@@ -41,7 +41,11 @@ int main(int argc, char **argv) {
   }
   std::string file = slurp(image);
   uint32_t words = file.size() >= 4 ? ((uint8_t)file[0] | ((uint8_t)file[1] << 8) | ((uint8_t)file[2] << 16) | ((uint32_t)(uint8_t)file[3] << 24)) : 0;
-  const char *vargv[] = {"c13planted", "+verilator+seed+7", nullptr};
+  // Everything that is not planted explicitly (including state elements this harness does not know about) takes
+  // the Verilator-randomised value of this seed; the driver repeats a planted case under several seeds.
+  static char seedArg[64];
+  snprintf(seedArg, sizeof seedArg, "+verilator+seed+%s", getenv("C13_SEED") ? getenv("C13_SEED") : "7");
+  const char *vargv[] = {"c13planted", seedArg, nullptr};
   vjson::Obj o;
   std::streambuf *oldOut = std::cout.rdbuf(), *oldIn = std::cin.rdbuf();
   // ---- phase 1: the reset window only
